@@ -1,4 +1,7 @@
-import sys
+"""./check --setup : build the worker from /repo's working tree and make sure every check module loads"""
+import importlib
+import os
+
 from . import core
 
 
@@ -6,7 +9,19 @@ def main():
     try:
         b, s = core.build()
         print(f"built {b} in {s:.1f}s")
-        return 0
     except core.Broken as e:
         print("setup failed:", e)
         return 1
+    bad = []
+    props = os.path.join(os.path.dirname(os.path.abspath(__file__)), "props")
+    for f in sorted(os.listdir(props)):
+        if f.startswith("c") and f.endswith(".py"):
+            try:
+                importlib.import_module(f"xrv.props.{f[:-3]}")
+            except Exception as e:      # a check that cannot even be imported must be seen here, not at its first run
+                bad.append(f"{f}: {type(e).__name__}: {e}")
+    if bad:
+        print("setup failed: check modules do not load:\n  " + "\n  ".join(bad))
+        return 1
+    print("all check modules load")
+    return 0
